@@ -187,6 +187,16 @@ func applyTable(c *Ctx, r *R) {
 			break
 		}
 	}
+	// the entry compared with the reference tip is the latest entry FOR THE POLICY REFERENCE
+	for _, k := range eng.CallsTo(fn, false, "pkg/rsl.GetLatestReferenceUpdaterEntry") {
+		names, ctors, okb := optionNames(k)
+		okO := okb && sameStringSet(names, "ForReference")
+		if f, has := optionCtor(ctors, "ForReference"); has {
+			s, isC := eng.ConstString(f.Arg(0))
+			okO = okO && isC && s == refPolicy
+		}
+		r.Check(okO, "entry-for-policy-ref", k.Pos(), "the log entry compared is GetLatestReferenceUpdaterEntry(ForReference(PolicyRef))", "the log entry that Apply compares with the policy reference is not the latest entry for refs/gittuf/policy (options: "+strings.Join(names, ",")+")")
+	}
 	var stagingRead ssa.Instruction
 	for _, k := range eng.Calls(fn, false) {
 		if k.Method() == "GetReference" {
